@@ -1,25 +1,26 @@
 #!/bin/bash
-# confirm_mutant.sh <PROP> <mN>: confirm a sub-agent's seeded change in a scratch worktree of /repo's
+# confirm_mutant.sh <PROP> <mN> [srcbase=/tmp/mut] [stored-as=mN]: confirm a sub-agent's seeded change in a scratch worktree of /repo's
 # current main: applies, compiles, passes the existing suite, demo fails with it and passes without.
 # Stores it under /verif/seeded/<PROP>-<mN>/ (patch regenerated against current main).
 set -u
 P=$1; M=$2
-SRC=/tmp/mut/$P.out/$M
-WT=/tmp/mutconf/$P-$M
-OUT=/verif/seeded/$P-$M
+SRC=${3:-/tmp/mut}/$P.out/$M
+N=${4:-$M}
+WT=/tmp/mutconf/$P-$N
+OUT=/verif/seeded/$P-$N
 export GOFLAGS=-mod=mod GOPROXY=off
 mkdir -p /tmp/mutconf
 git -C /repo worktree remove --force $WT >/dev/null 2>&1
 git -C /repo worktree add --detach $WT main >/dev/null 2>&1 || { echo "worktree failed"; exit 2; }
 cd $WT
-res() { echo "$P-$M: $1"; }
-if ! git apply -3 $SRC/patch.diff >/tmp/mutconf/$P-$M.apply.log 2>&1; then
-  if ! git apply --reject $SRC/patch.diff >>/tmp/mutconf/$P-$M.apply.log 2>&1; then
-    res "PATCH DOES NOT APPLY to current main (see /tmp/mutconf/$P-$M.apply.log)"; exit 1
+res() { echo "$P-$N (from $SRC): $1"; }
+if ! git apply -3 $SRC/patch.diff >/tmp/mutconf/$P-$N.apply.log 2>&1; then
+  if ! git apply --reject $SRC/patch.diff >>/tmp/mutconf/$P-$N.apply.log 2>&1; then
+    res "PATCH DOES NOT APPLY to current main (see /tmp/mutconf/$P-$N.apply.log)"; exit 1
   fi
 fi
 git reset -q 2>/dev/null
-if ! go build ./... >/tmp/mutconf/$P-$M.build.log 2>&1; then res "DOES NOT COMPILE"; cat /tmp/mutconf/$P-$M.build.log | head; exit 1; fi
+if ! go build ./... >/tmp/mutconf/$P-$N.build.log 2>&1; then res "DOES NOT COMPILE"; cat /tmp/mutconf/$P-$N.build.log | head; exit 1; fi
 suite() { unshare -n sh -c 'ip link set lo up; go test -vet=off -count=1 -timeout 25m ./... 2>&1' | grep -v "no test files" | grep "^FAIL\|^--- FAIL\|^panic" ; }
 F=$(suite)
 if [ -n "$F" ]; then
@@ -28,27 +29,27 @@ if [ -n "$F" ]; then
   if [ -n "$F2" ]; then F3=$(suite); if [ -n "$F3" ]; then res "SUITE FAILS WITH PATCH: $F3"; exit 1; fi; fi
 fi
 TESTNAME=$(grep -o "func Test[A-Za-z0-9_]*" $SRC/demo_test.go | head -1 | sed 's/func //')
-PAT="Test${P}M${M#m}"
-DIR=$(head -3 $SRC/demo_test.go | grep -o "Copy into: *[a-z/]*" | head -1 | sed 's/Copy into: *//; s#/$##')
-[ -z "$DIR" ] && DIR=router
+PAT="^($(grep -o "^func Test[A-Za-z0-9_]*" $SRC/demo_test.go | sed 's/func //' | paste -sd'|'))\$"
+DIR=$(grep -m1 "^package " $SRC/demo_test.go | awk '{print $2}' | sed 's/_test$//')
+case "$DIR" in serialize) DIR=transport/serialize;; auth) DIR=router/auth;; crsign) DIR=wamp/crsign;; esac
 [ -d "$DIR" ] || DIR=router
-echo "$DIR" > /tmp/mutconf/$P-$M.dir
+echo "$DIR" > /tmp/mutconf/$P-$N.dir
 cp $SRC/demo_test.go $DIR/zz_seeded_demo_test.go
-unshare -n sh -c "ip link set lo up; go test -vet=off -count=1 -timeout 10m -run '$PAT' ./$DIR/ 2>&1" >/tmp/mutconf/$P-$M.with.log
-if grep -q "^ok" /tmp/mutconf/$P-$M.with.log; then WITH=pass; else WITH=fail; fi
+unshare -n sh -c "ip link set lo up; go test -vet=off -count=1 -timeout 10m -run '$PAT' ./$DIR/ 2>&1" >/tmp/mutconf/$P-$N.with.log
+if grep -q "^ok" /tmp/mutconf/$P-$N.with.log; then WITH=pass; else WITH=fail; fi
 rm -f $DIR/zz_seeded_demo_test.go
-git diff > /tmp/mutconf/$P-$M.patch
+git diff > /tmp/mutconf/$P-$N.patch
 git checkout -q -- .
 cp $SRC/demo_test.go $DIR/zz_seeded_demo_test.go
-unshare -n sh -c "ip link set lo up; go test -vet=off -count=1 -timeout 10m -run '$PAT' ./$DIR/ 2>&1" >/tmp/mutconf/$P-$M.without.log
-if grep -q "^ok" /tmp/mutconf/$P-$M.without.log; then WITHOUT=pass; else WITHOUT=fail; fi
+unshare -n sh -c "ip link set lo up; go test -vet=off -count=1 -timeout 10m -run '$PAT' ./$DIR/ 2>&1" >/tmp/mutconf/$P-$N.without.log
+if grep -q "^ok" /tmp/mutconf/$P-$N.without.log; then WITHOUT=pass; else WITHOUT=fail; fi
 res "suite=ok demo_with_patch=$WITH demo_without_patch=$WITHOUT"
 if [ $WITH = fail ] && [ $WITHOUT = pass ]; then
   mkdir -p $OUT
-  cp /tmp/mutconf/$P-$M.patch $OUT/patch.diff
+  cp /tmp/mutconf/$P-$N.patch $OUT/patch.diff
   cp $SRC/demo_test.go $OUT/demo_test.go
   cp $SRC/notes.md $OUT/notes.md 2>/dev/null
-  cp /tmp/mutconf/$P-$M.dir $OUT/demo_dir.txt
+  cp /tmp/mutconf/$P-$N.dir $OUT/demo_dir.txt
   echo "CONFIRMED" > $OUT/.confirmed
 fi
 cd /
